@@ -132,7 +132,39 @@ ReduceI(which, a) ==
       [] which = "bitxor" -> FoldI(LAMBDA x, y : x ^^ y, a, 2, a[1])
       [] which = "and" -> B2I(\A i \in 1 .. Len(a) : a[i] # 0)
       [] which = "or" -> B2I(\E i \in 1 .. Len(a) : a[i] # 0)
+      \* reduce_ne of booleans: ((b1 != b2) != b3) ..., a left fold
+      [] which = "ne" -> FoldI(LAMBDA x, y : IF x # y THEN 1 ELSE 0, [i \in 1 .. Len(a) |-> IF a[i] # 0 THEN 1 ELSE 0], 2, IF a[1] # 0 THEN 1 ELSE 0)
       [] which = "any_negative" -> B2I(\E i \in 1 .. Len(a) : a[i] < 0)
       [] which = "all_positive" -> B2I(\A i \in 1 .. Len(a) : a[i] > 0)
 ArithI(which, a, b) == [i \in 1 .. Len(a) |-> IF which = "add" THEN a[i] + b[i] ELSE a[i] * b[i]]
+---------------------------------------------------------------------------
+(* C19, feature `image`: the image::Pixel implementation of Rgb / Rgba on  *)
+(* integer component types (values, ring P = 0).  a = the pixel's channels *)
+(* (3 or 4), b = six further values (second pixel / slice / arguments),    *)
+(* full = ColorComponent::full() of the component type.  The user maps of  *)
+(* the records are f(x) = x + 1, g(x) = x + 2 (alpha), f2(x, y) = x + 2y.  *)
+(* C19 | src/vec.rs vec_impl_pixel_rgb / vec_impl_pixel_rgba               *)
+PixelExp(how, a, b, full) ==
+    LET n == Len(a)
+        rgb == <<a[1], a[2], a[3]>>
+        bgr == <<a[3], a[2], a[1]>>
+        alpha == IF n = 4 THEN a[4] ELSE full                       \* an Rgb pixel is opaque
+        luma == (a[1] + a[2] + a[3]) \div 3                          \* in the component type; no overflow by construction
+        view(v) == [v |-> v, ok |-> 1]                              \* a view of the pixel's / slice's own storage
+    IN CASE how \in {"channels", "channels_mut"} -> view(a)
+         [] how = "channels4" -> rgb \o <<alpha>>
+         [] how = "from_channels" -> SubSeq(b, 1, n)                 \* the fourth argument is ignored by Rgb
+         [] how \in {"from_slice", "from_slice_mut"} -> view(SubSeq(b, 1, n))
+         [] how = "to_rgb" -> rgb
+         [] how = "to_rgba" -> rgb \o <<alpha>>
+         [] how = "to_bgr" -> bgr
+         [] how = "to_bgra" -> bgr \o <<alpha>>
+         [] how = "to_luma" -> <<luma>>
+         [] how = "to_luma_alpha" -> <<luma, alpha>>
+         [] how = "map" -> [i \in 1 .. n |-> a[i] + 1]
+         [] how = "map_with_alpha" -> [i \in 1 .. n |-> IF i = 4 THEN a[i] + 2 ELSE a[i] + 1]
+         [] how = "map2" -> [i \in 1 .. n |-> a[i] + 2 * b[i]]
+         [] how = "invert" -> [i \in 1 .. n |-> IF i = 4 THEN a[i] ELSE full - a[i]]       \* alpha kept
+         [] how = "blend" -> [i \in 1 .. n |-> (a[i] + b[i] + 1) \div 2]                   \* mean, halves rounded up
+         [] how = "consts" -> <<n, n, 1>>                            \* CHANNEL_COUNT, length and spelling of COLOR_MODEL
 =============================================================================
